@@ -65,8 +65,8 @@ NAMES_EDGE = [None, "a", "ä", "n" * 255]
 CHK_FULL = [v.to_bytes(4, "big") for v in D.dedupe(D.edge(32) + [0x01020304])]
 CHK_EDGE = [bytes(4), b"\xff" * 4, bytes([1, 2, 3, 4]), b"\xaa" * 4]
 RESPS = [[], [U.RESP_ONE_NAME], [U.RESP_TWO_NAMES_MSG], [U.RESP_TWO_NAMES], [U.RESP_ONE_NAME_MSG],
-         [U.RESP_ONE_NAME, U.RESP_TWO_NAMES_MSG], [U.RESP_TWO_NAMES_MSG, U.RESP_TWO_NAMES, U.RESP_ONE_NAME_MSG]]
-OPTS_FULL = [None, [U.OPT_FLOW], U.OPTS_MIXED, U.OPTS_TWO_NAME_REQ]
+         [U.RESP_ONE_NAME, U.RESP_TWO_NAMES_MSG], [U.RESP_TWO_NAMES_MSG, U.RESP_TWO_NAMES, U.RESP_ONE_NAME_MSG], [U.RESP_REPLACE], [U.RESP_REPLACE, U.RESP_ONE_NAME]]
+OPTS_FULL = [None, [U.OPT_FLOW], U.OPTS_MIXED, U.OPTS_TWO_NAME_REQ, U.OPTS_REPLACE_REQ]
 OPTS_EDGE = [None, [U.OPT_FLOW], U.OPTS_MIXED]
 
 
